@@ -281,6 +281,17 @@ func hasErrorText(stderr string) bool {
 	return strings.TrimSpace(stderr[:i]) != ""
 }
 
+// oneUsage: the error stream carries exactly one usage line (the rejecting / addressed command's, not also its parents')
+func oneUsage(stderr string) bool {
+	n := 0
+	for _, l := range strings.Split(stderr, "\n") {
+		if strings.HasPrefix(l, "Usage: ") {
+			n++
+		}
+	}
+	return n == 1
+}
+
 func usageOf(stderr, path string) bool {
 	u := "Usage: " + path
 	return strings.Contains(stderr, u+" ") || strings.Contains(stderr, u+"\n")
@@ -681,8 +692,8 @@ func runC07(c *core.Ctx) {
 			return
 		}
 	}
-	if !usageOf(o.Stderr, node.Path()) {
-		c.Violation(fmt.Sprintf("the usage of the rejecting command %q is not on the error stream", node.Path()), map[string]interface{}{"stderr": truncateStr(o.Stderr, 400)}, nil)
+	if !usageOf(o.Stderr, node.Path()) || !oneUsage(o.Stderr) {
+		c.Violation(fmt.Sprintf("the error stream must carry the usage of the rejecting command %q, once, and no other usage", node.Path()), map[string]interface{}{"stderr": truncateStr(o.Stderr, 600)}, nil)
 		return
 	}
 	if !typed && tw.Err != nil && !strings.Contains(o.Stderr, tw.Err.Error()) {
@@ -806,7 +817,7 @@ func c14One(c *core.Ctx, root *drive.Cmd, version bool, policy flag.ErrorHandlin
 				c.Violation("the version string was not printed", map[string]interface{}{"stderr": truncateStr(o.Stderr, 300)}, nil)
 				return
 			}
-		} else if !usageOf(o.Stderr, e.node.Path()) || !strings.Contains(o.Stderr, "LONG-"+e.node.Path()+"\n") {
+		} else if !usageOf(o.Stderr, e.node.Path()) || !oneUsage(o.Stderr) || !strings.Contains(o.Stderr, "LONG-"+e.node.Path()+"\n") {
 			c.Violation(fmt.Sprintf("expected the long help of %q (%s + its long description)", e.node.Path(), want), map[string]interface{}{"stderr": truncateStr(o.Stderr, 400)}, nil)
 			return
 		}
